@@ -20,7 +20,8 @@ conditions that are visible in the shape of the pool allocator:
  R4  the driver allocates what was computed: the size handed to
      ``create_pool_allocator`` is the value returned by ``_determine_stack_size``.
 Not decided: behavioural equivalence of hoisted / pool-allocated code, the size
-arithmetic of each array (dimension products, ``C_SIZEOF``), hoisting.
+arithmetic of each array (dimension products, ``C_SIZEOF``), hoisting, and the other
+stack transformations (raw stack, Fortran-pointer and direct-index variants).
 """
 import ast
 
